@@ -171,4 +171,38 @@ REGISTRY = {
         "level_note": "Trusted: Coq kernel/vm_compute, hand-written model (checked by correspondence), harness. No axioms.",
         "explanation": "C03_* proved; real End driven directly.",
     },
+    "C09": {
+        "corr": "C09",
+        "trusted": [
+            "modelled: Zip (stashes, pairing, clearing at FlushAndRestart), merge (filter_map over the two-input Start), End towards several downstream blocks (split) and with the All strategy (broadcast)",
+            "not modelled as a machine: RoutingEnd (route): first-match choice per element; covered by whole-pipeline runs (C01) and graph wiring (C19)",
+        ],
+        "assumptions": ["zip inputs are either all timestamped or all plain (mixing panics in the implementation: explicit model state)"],
+        "level_text": "Proof: zip pairs positionally and one-to-one with exactly min(|a|,|b|) pairs for every interleaving of its inputs; merge is the multiset union; broadcast reaches every replica; split delivers to every branch exactly the producer's sequence. Tied to the code by driving the real Start::multiple -> Zip / merge chains and the real End towards several blocks. Partial: route is covered by pipeline runs only.",
+        "level_note": "Trusted: Coq kernel/vm_compute, hand-written models (checked by correspondence), harness. No axioms.",
+        "explanation": "C09_* proved; zip/merge/End driven directly.",
+    },
+    "C05": {
+        "corr": "C05",
+        "trusted": [
+            "modelled: every component named in the theorems (Start, two-input Start, Map/Filter/FlatMap/KeyBy/Fold/KeyedFold/Reorder, window operator with count / event-time / transaction managers, hash / sort-merge / keyed joins, zip, merge)",
+            "RoundSync (no replica's next-iteration data overtakes another's FlushAndRestart) is a hypothesis at a block input; inside loops it is what the loop protocol provides (C10)",
+        ],
+        "assumptions": ["upstream replicas run the same number of iterations (necessary: counterexample theorem)"],
+        "level_text": "Proof: the protocol grammar is preserved by the block input for every number of upstream replicas and every arrival interleaving of their markers, by every chain operator and by compositions; stateful operators are round-local (all results before the FlushAndRestart, initial state afterwards) — fold, keyed fold, reorder, count windows, hash join, zip — with the keyed rich_map state recorded as the by-design exception. Tied to the code by re-evaluating the grammar and per-round exactness on the outputs of the real components (all component drivers).",
+        "level_note": "Trusted: Coq kernel/vm_compute, hand-written models (checked by correspondence), harness. No axioms.",
+        "explanation": "C05_* proved; component outputs checked against the grammar.",
+    },
+    "C06": {
+        "corr": "C06",
+        "classes": {1: "F6"},
+        "trusted": [
+            "modelled: WatermarkFrontier + Start, chain operators, reorder, zip, merge, window operator with count and event-time managers (with the F5 fix)",
+            "interval join swallows watermarks and add_timestamps relies on the user's watermark generator: outside the proved set",
+        ],
+        "assumptions": ["inputs respect the contract per upstream replica; count windows over timestamped-only input"],
+        "level_text": "Proof: watermark safety is preserved by the block input (minimum over active replicas, any interleaving), by every chain operator, reorder, zip, merge, event-time windows and exact count windows, and by compositions; non-exact count windows are refuted by a concrete history (known finding F6). Tied to the code by evaluating watermark safety on the outputs of the real components whenever their inputs are safe.",
+        "level_note": "Trusted: Coq kernel/vm_compute, hand-written models (checked by correspondence), harness. F6 reported as KNOWN-FINDING only when the faithful model reproduces it. No axioms.",
+        "explanation": "C06_* proved; F6 witness.",
+    },
 }
